@@ -93,6 +93,14 @@ impl Cm for MIupacC {
 impl Cm for DegenC {
     const ID: CodecId = CodecId::Degen;
 }
+pub type TriC = crate::custom::Tri;
+pub type SeptC = crate::custom::Sept;
+impl Cm for TriC {
+    const ID: CodecId = CodecId::Tri;
+}
+impl Cm for SeptC {
+    const ID: CodecId = CodecId::Sept;
+}
 
 /// run `$body` with the type alias `$C` bound to the codec type named by `$id`
 #[macro_export]
@@ -125,6 +133,14 @@ macro_rules! with_codec {
             }
             $crate::model::CodecId::Degen => {
                 type $C = $crate::codecs::DegenC;
+                $body
+            }
+            $crate::model::CodecId::Tri => {
+                type $C = $crate::codecs::TriC;
+                $body
+            }
+            $crate::model::CodecId::Sept => {
+                type $C = $crate::codecs::SeptC;
                 $body
             }
         }
